@@ -629,55 +629,7 @@ func checkFilters(c *hx.Ctx, kase caseID, r *hx.Rng, chunks []*rag.Chunk) {
 		for i := 0; i < nops; i++ {
 			chain = append(chain, genFop(r, chunks))
 		}
-		cc := rag.NewChunkCollection(chunks)
-		p := hx.Safe(func() {
-			for _, f := range chain {
-				cc = f.apply(cc)
-			}
-		})
-		if !chk(c, "C14/panic-filter", p == "", kase, func() string { return p }) {
-			continue
-		}
-		var want []*rag.Chunk
-		for _, ch := range chunks {
-			all := true
-			for _, f := range chain {
-				if !f.holds(ch) {
-					all = false
-				}
-			}
-			if all {
-				want = append(want, ch)
-			}
-		}
-		got := cc.ToSlice()
-		same := len(got) == len(want)
-		for i := 0; same && i < len(got); i++ {
-			same = got[i] == want[i] // pointer identity: the very chunks, in order
-		}
-		var ws []string
-		lower := map[string]string{}
-		for _, f := range chain {
-			ws = append(ws, f.wire())
-			if f.kind == "search" {
-				lower[f.s] = strings.ToLower(f.s)
-				for _, ch := range chunks {
-					lower[ch.Text] = strings.ToLower(ch.Text)
-				}
-			}
-		}
-		chk(c, "C14/filter-exact", same, caseID{Seed: kase.Seed, Index: kase.Index, What: "filter " + strings.Join(ws, "+")}, func() string {
-			return fmt.Sprintf("chain %s returned %d chunks %v, the predicate holds for %d %v", strings.Join(ws, "+"), len(got), idsOf(got), len(want), idsOf(want))
-		})
-		var lt []string
-		for _, k := range hx.SortedKeys(lower) {
-			lt = append(lt, hx.HexS(k)+">"+hx.HexS(lower[k]))
-		}
-		out := "none"
-		if len(got) > 0 {
-			out = hx.HexList(idsOf(got))
-		}
-		c.Op("c14.filt f="+strings.Join(ws, "+")+" L="+strings.Join(lt, ",")+" "+wireChunks(chunks), out)
+		runChain(c, kase, "C14/filter-exact", chunks, chain)
 		c.Count("filter-" + chain[0].kind)
 	}
 	// the generic Filter with an arbitrary predicate, and the empty result
@@ -702,6 +654,129 @@ func checkFilters(c *hx.Ctx, kase caseID, r *hx.Rng, chunks []*rag.Chunk) {
 		return fmt.Sprintf("Filter(arbitrary predicate) returned %v, predicate holds for %d chunks", idsOf(got), k)
 	})
 	branchingFilters(c, r, kase, chunks)
+	checkCaseSearch(c, kase, r.Fork(0xC45E))
+}
+
+// runChain applies the chain to a fresh collection of the chunks, checks the result against
+// the documented predicates (oracle key `key`) and emits the correspondence op.
+func runChain(c *hx.Ctx, kase caseID, key string, chunks []*rag.Chunk, chain []fop) {
+	cc := rag.NewChunkCollection(chunks)
+	p := hx.Safe(func() {
+		for _, f := range chain {
+			cc = f.apply(cc)
+		}
+	})
+	if !chk(c, "C14/panic-filter", p == "", kase, func() string { return p }) {
+		return
+	}
+	got := cc.ToSlice()
+	// got must be the chunks for which the predicate holds: the very chunks (pointer identity),
+	// in order, each once; a chunk on which the readings of "case-insensitive" differ may be in
+	// or out.
+	var want, free []*rag.Chunk
+	same := true
+	k := 0
+	for _, ch := range chunks {
+		present := k < len(got) && got[k] == ch
+		if present {
+			k++
+		}
+		switch chainVerdict(chain, ch) {
+		case yes:
+			want = append(want, ch)
+			same = same && present
+		case no:
+			same = same && !present
+		default:
+			free = append(free, ch)
+		}
+	}
+	same = same && k == len(got)
+	var ws []string
+	lower := map[string]string{}
+	search := false
+	for _, f := range chain {
+		ws = append(ws, f.wire())
+		if f.kind == "search" {
+			search = true
+			lower[f.s] = strings.ToLower(f.s)
+			for _, ch := range chunks {
+				lower[ch.Text] = strings.ToLower(ch.Text)
+			}
+		}
+	}
+	chk(c, key, same, caseID{Seed: kase.Seed, Index: kase.Index, What: "filter " + strings.Join(ws, "+")}, func() string {
+		d := fmt.Sprintf("chain %s returned %d chunks %v, the predicate holds for %d %v", strings.Join(ws, "+"), len(got), idsOf(got), len(want), idsOf(want))
+		if len(free) > 0 {
+			d += fmt.Sprintf(" (either answer accepted for %v)", idsOf(free))
+		}
+		if search {
+			for _, f := range chain {
+				if f.kind == "search" {
+					d += fmt.Sprintf("; keyword %+q", f.s)
+				}
+			}
+			in := map[*rag.Chunk]bool{}
+			for _, ch := range got {
+				in[ch] = true
+			}
+			for _, ch := range chunks {
+				if v := chainVerdict(chain, ch); (v == yes && !in[ch]) || (v == no && in[ch]) {
+					d += fmt.Sprintf("; chunk %q text %+q: predicate %v, returned %v", ch.ID, ch.Text, v == yes, in[ch])
+				}
+			}
+		}
+		return clip(d)
+	})
+	if search {
+		for _, ch := range want {
+			for _, f := range chain {
+				if f.kind == "search" && !containsASCIIFold(ch.Text, f.s) {
+					if isASCIIString(f.s) {
+						c.Count("search-ASCII-keyword-matches-only-through-a-non-ASCII-case-variant")
+					} else {
+						c.Count("search-non-ASCII-keyword-matches-only-through-another-case-variant")
+					}
+				}
+			}
+		}
+		if len(free) > 0 {
+			c.Count("search-with-chunks-where-folding-and-lowercasing-differ")
+		}
+	}
+	var lt []string
+	for _, k := range hx.SortedKeys(lower) {
+		lt = append(lt, hx.HexS(k)+">"+hx.HexS(lower[k]))
+	}
+	out := "none"
+	if len(got) > 0 {
+		out = hx.HexList(idsOf(got))
+	}
+	c.Op("c14.filt f="+strings.Join(ws, "+")+" L="+strings.Join(lt, ",")+" "+wireChunks(chunks), out)
+}
+
+// checkCaseSearch: Search (alone and inside chains) over collections whose texts are spelled
+// with arbitrary members of each letter's case class, with keywords that are pieces of those
+// texts spelled in another casing - in particular across the ASCII boundary in both
+// directions (see casegen.go).
+func checkCaseSearch(c *hx.Ctx, kase caseID, r *hx.Rng) {
+	kase.What = "case-search"
+	chunks := caseRichChunks(r)
+	for rep := 0; rep < 4; rep++ {
+		chain := []fop{{kind: "search", s: caseKeyword(r, chunks)}}
+		key := "C14/search-case-insensitive"
+		if rep == 3 {
+			key = "C14/filter-exact"
+			other := genFop(r, chunks)
+			if r.Bool() {
+				chain = append(chain, other)
+			} else {
+				chain = append([]fop{other}, chain...)
+			}
+		}
+		runChain(c, kase, key, chunks, chain)
+		c.Count("filter-case-search")
+	}
 }
 
 // branchingFilters: an intermediate result is kept and filtered twice; every collection
@@ -986,7 +1061,7 @@ func RunCase(c *hx.Ctx, idx int) {
 }
 
 func Run(c *hx.Ctx) {
-	c.Rep.Rule = "collections of 0–20 chunks whose ids, texts, titles, section names/paths, parent/child ids are concatenations of adversarial fragments (comma, tab, quotes, CR, LF, CRLF, NUL, control bytes, emoji, CJK, NBSP/NEL, JSON look-alikes, backslash-dot), valid UTF-8; every collection is exported by ToJSON/ToJSONL/ToCSV/ToTSV, by Exporter.ExportToString under 2 drawn configurations per format (library constructors + toggles of IncludeMetadata, MetadataFields nil/empty/subsets/unknown names, IncludeText, IncludeEmbeddings, FlattenMetadata, IncludeHeader, PrettyPrint, column names, delimiter), by BatchExporter (size 1..n+2), StreamExporter, Pinecone/Chroma/Weaviate with dyadic embeddings, and filtered by 4 drawn filters/chains + an arbitrary predicate; non-trivial = at least one chunk; distinct by canonical collection"
+	c.Rep.Rule = "collections of 0–20 chunks whose ids, texts, titles, section names/paths, parent/child ids are concatenations of adversarial fragments (comma, tab, quotes, CR, LF, CRLF, NUL, control bytes, emoji, CJK, NBSP/NEL, JSON look-alikes, backslash-dot), valid UTF-8; every collection is exported by ToJSON/ToJSONL/ToCSV/ToTSV, by Exporter.ExportToString under 2 drawn configurations per format (library constructors + toggles of IncludeMetadata, MetadataFields nil/empty/subsets/unknown names, IncludeText, IncludeEmbeddings, FlattenMetadata, IncludeHeader, PrettyPrint, column names, delimiter), by BatchExporter (size 1..n+2), StreamExporter, Pinecone/Chroma/Weaviate with dyadic embeddings, and filtered by 4 drawn filters/chains + an arbitrary predicate; plus, per case, a second collection whose texts are words spelled with arbitrary members of each letter's Unicode case class (components of SimpleFold/ToLower/ToUpper/ToTitle: k/K/KELVIN SIGN, i/I/U+0130/U+0131, s/S/long s, a-ring/ANGSTROM, Greek, digraphs) searched with 4 keywords that are pieces of those texts re-spelled in another casing, incl. wholly on the ASCII / non-ASCII side of each class, alone and chained with another filter; non-trivial = at least one chunk; distinct by canonical collection"
 	n := c.N(1200, 12000)
 	for i := 0; i < n; i++ {
 		RunCase(c, i)
